@@ -44,6 +44,19 @@ def _bytes_files(tf):
     return {'pickle': (tf.write(pickle.dumps(a), '.pkl', binary=True), tf.write(pickle.dumps(b), '.pkl', binary=True))}
 
 
+def _kind_files(tf):
+    """Sixth pair (pickle only): a value that is a mapping in one document and a set / list / tuple in the other (a mapping
+    compared with a multiset that is not a mapping crashed before repository fix 6e3e961)."""
+    a = {"name": "alpha", "v": {"k": 1, "j": [2]}, "w": {1, 2}, "t": (1, 2)}
+    b = {"name": "alpha", "v": {1, 2, "k"}, "w": {"1": 1}, "t": {"a": (1, 2)}}
+    return {'pickle': (tf.write(pickle.dumps(a), '.pkl', binary=True), tf.write(pickle.dumps(b), '.pkl', binary=True))}
+
+
+def _kind_files_top(tf):
+    """Seventh pair (pickle only): the same at top level."""
+    return {'pickle': (tf.write(pickle.dumps({"name": "alpha"}), '.pkl', binary=True), tf.write(pickle.dumps({1, 2}), '.pkl', binary=True))}
+
+
 def _long_files(tf):
     """Fifth pair per type: strings longer than a terminal line, strings with embedded line breaks and unusual line
     separators - values whose rendering is written in pieces spanning several lines."""
@@ -98,7 +111,7 @@ def _rich_files(tf):
 def _files(tf, variant=0):
     import yaml
     if variant:
-        return {1: _rich_files, 2: _null_files, 3: _bytes_files, 4: _long_files}[variant](tf)
+        return {1: _rich_files, 2: _null_files, 3: _bytes_files, 4: _long_files, 5: _kind_files, 6: _kind_files_top}[variant](tf)
     a, b = {"a": [1, 2, {"b": "x"}], "c": "str"}, {"a": [1, 3, {"b": "y"}], "d": "str"}
     out = {}
     out['json'] = (tf.write(json.dumps(a), '.json'), tf.write(json.dumps(b), '.json'))
@@ -224,6 +237,7 @@ def bounded(tier, seed, repo_root):
             for st in (['--no-color'], ['--color', '--html'])]
     rich += [(i, f, m, ['--no-color'], [], d, 2) for i in ('json', 'json5', 'yaml', 'pickle') for f in TYPES for m in modes for d in (True, False)]
     rich += [('pickle', f, m, ['--no-color'], [], d, 3) for f in TYPES for m in modes for d in (True, False)]
+    rich += [('pickle', f, m, ['--no-color'], c, True, v) for f in TYPES for m in modes for c in ([], ['-k']) for v in (5, 6)]
     rich += [(i, f, m, st, [], d, 4) for i in TYPES for f in TYPES for m in modes for d in (True, False)
              for st in (['--no-color'], ['--color'])]
     jobs += rich
@@ -237,7 +251,7 @@ def bounded(tier, seed, repo_root):
     return [{
         'name': 'C13.configuration-matrix', 'bound': f"{len(TYPES)} input types x {len(TYPES)} output formats x 3 modes x 4 styles x 2 "
         f"(condensed) x 2 (equal / different documents) = {len(jobs) - len(rich)} runs of main() on one plain document pair per type, plus {len(rich)} runs (types x formats x modes x equal/different) "
-        f"on a second pair per type with every scalar kind, empty/nested containers, non-ASCII text and non-string mapping keys (YAML, pickle), a third pair containing null (json, json5, yaml, pickle), a fourth with bytes values (pickle) and a fifth with strings longer than a line / with embedded line separators; "
+        f"on a second pair per type with every scalar kind, empty/nested containers, non-ASCII text and non-string mapping keys (YAML, pickle), a third pair containing null (json, json5, yaml, pickle), a fourth with bytes values (pickle) a fifth with strings longer than a line / with embedded line separators, a sixth and seventh (pickle) where a mapping is compared with a set / list; "
         f"{len(sub)} runs of the real command in a subprocess with the status output left on",
         'evaluations': len(jobs) + len(sub), 'distinct_nontrivial': len(jobs) + len(sub), 'exhaustive': True,
         'rule': 'configuration -> graphtage.__main__.main completes without an exception other than SystemExit, exit status in {0,1}',
